@@ -5,6 +5,7 @@ import (
 	"encoding/json"
 	"flag"
 	"fmt"
+	"html"
 	"math/rand"
 	"net/http/httptest"
 	"os"
@@ -376,7 +377,7 @@ func apiFamily(raw json.RawMessage) Result {
 				return res
 			}
 			if o.Op.K == "Response" && c.Mode == "response" {
-				if k, m := judgeBody(c, e, o.G, body, ok); k != "" {
+				if k, m := judgeBody(c, e, o.G, o.Op.Page, body, ok); k != "" {
 					res.Status, res.Kind, res.Msg = "viol", k, m
 					res.Tags = append(res.Tags, o.Op.K+":"+o.Op.Page)
 					return res
@@ -485,7 +486,7 @@ func waitParkedOrDone(s *gateSched, done chan int, g int, results map[int]string
 }
 
 // judgeBody: C17 — what Response wrote, against the model's selection table.
-func judgeBody(c apiCase, e *apiEnv, g int, body string, ok bool) (kind, msg string) {
+func judgeBody(c apiCase, e *apiEnv, g int, page string, body string, ok bool) (kind, msg string) {
 	var exp map[string]apiBody
 	var expSeq []apiBody
 	var want apiBody
@@ -515,7 +516,12 @@ func judgeBody(c apiCase, e *apiEnv, g int, body string, ok bool) (kind, msg str
 		return "partial-output", "the body contains output of the failed page"
 	}
 	leaksPath := strings.Contains(body, e.root) || strings.Contains(body, "/"+strings.Trim(c.Cfg.Dir, "/")+"/")
-	leaksMsg := strings.Contains(body, "division by zero") || strings.Contains(body, "template not found")
+	// the message is the one String reports for this page, whatever its wording
+	msgText := ""
+	if _, ferr := e.tpl.String(page, apiDataN(0)); ferr != nil {
+		msgText = ferr.Message()
+	}
+	leaksMsg := msgText != "" && (strings.Contains(body, msgText) || strings.Contains(html.UnescapeString(body), msgText))
 	if !c.Cfg.Debug && (leaksPath || leaksMsg) {
 		return "leak", fmt.Sprintf("debug mode is off but the body shows path=%v message=%v", leaksPath, leaksMsg)
 	}
